@@ -307,6 +307,17 @@ Proof.
     + apply vt_tok; [exact I|constructor].
   - apply (d_words 65 [108] [32] 66 [111]); [exact I|repeat constructor|exact Ws|exact I|apply nt_c; [exact I|constructor]].
 Qed.
+(* ---- a bare URI without parameters ------------------------------------------------------------------------------------------------------------ *)
+Theorem C09_bare_uri : forall h (junk : list byte) n0 (name sp : list byte) x tail, nchar0 n0 -> Forall nchar name -> spaces sp -> is_sp x = false ->
+  let i0 := nnat (length junk) in let lu := nnat (length (n0 :: name)) in
+  parse_nameaddr h (junk ++ (n0 :: name) ++ sp ++ CR :: LF :: x :: tail) i0 pfrom0 = Done (i0 + lu + nnat (length sp) + 2) EOk (fB h i0 lu).
+Proof. exact nameaddr_bare_eol. Qed.
+Theorem C09_bare_uri_then_comma : forall h (junk : list byte) n0 (name g y : list byte), multipleValsOk h = true -> nchar0 n0 -> Forall nchar name -> gap 0 g ->
+  let i0 := nnat (length junk) in let lu := nnat (length (n0 :: name)) in
+  parse_nameaddr h (junk ++ (n0 :: name) ++ g ++ (44 : byte) :: y) i0 pfrom0 = Done (i0 + lu + nnat (length g) + 1) EMoreValues (fB h i0 lu).
+Proof. exact nameaddr_bare_comma. Qed.
+Theorem C09_bare_result_means : forall h i0 lu, fB h i0 lu = mkpfrom pf0 (mkpf i0 lu) pf0 false false false h 0 0 pf0 (mkpf i0 lu) EOk 0 FbFIN 0 0 0 0 0.
+Proof. reflexivity. Qed.
 (* ---- the Contact list with general values ------------------------------------------------------------------------------------------------------ *)
 Theorem C09_contact_list_general_values : forall gs (junk sp : list byte) x tail n, gs <> [] -> Forall gv_ok gs -> spaces sp -> is_sp x = false ->
   let i := nnat (length junk) in
@@ -321,6 +332,16 @@ Proof. exact contact_general_list_spec. Qed.
 Theorem C09_general_values_are_covered : forall D uri g L t, disp D -> Forall uchar uri -> gap 0 g ->
   gv_ok (gv_plain D uri g) /\ (Forall t_ok L -> t_ok t -> gv_ok (gv_params D uri g L t)).
 Proof. intros D uri g L t HD Hu Hg. split; [apply gv_plain_ok; assumption|intros HL Ht; apply gv_params_ok; assumption]. Qed.
+Theorem C09_bare_values_are_covered : forall n0 name g L t, nchar0 n0 -> Forall nchar name -> gap 0 g ->
+  gv_ok (gv_bare n0 name g) /\ (Forall t_ok L -> t_ok t -> gv_ok (gv_bare_params n0 name g L t)).
+Proof. intros n0 name g L t H0 H1 Hg. split; [apply gv_bare_ok; assumption|intros HL Ht; apply gv_bare_params_ok; assumption]. Qed.
+Theorem C09_bare_value_means : forall n0 name g L t i0,
+  gv_x (gv_bare n0 name g) = n0 :: name /\ gv_g (gv_bare n0 name g) = g /\ gv_v (gv_bare n0 name g) i0 = fB HdrContact i0 (nnat (length (n0 :: name))) /\
+  gv_x (gv_bare_params n0 name g L t) = headB n0 name g ++ its_bytes L ++ t_body t /\ gv_g (gv_bare_params n0 name g L t) = t_g4 t /\
+  gv_v (gv_bare_params n0 name g L t) i0 =
+    (let i := i0 + nnat (length (headB n0 name g)) in let j := i + nnat (length (its_bytes L)) in
+     finW HdrContact (t_d j t) (t_apply true j t (its_state true i L (bB i0 (nnat (length (n0 :: name))) g)))).
+Proof. intros. repeat split; reflexivity. Qed.
 Theorem C09_general_list_means : forall g g2 gs sp i,
   gl_text [g] sp = gv_x g ++ sp /\ gl_text (g :: g2 :: gs) sp = gv_x g ++ gv_g g ++ [(44 : byte)] ++ gl_text (g2 :: gs) sp /\
   gl_vals i [g] = [gv_v g i] /\ gl_vals i (g :: g2 :: gs) = gv_v g i :: gl_vals (i + nnat (length (gv_x g ++ gv_g g ++ [(44 : byte)]))) (g2 :: gs) /\
@@ -357,6 +378,8 @@ Proof.
 Qed.
 Print Assumptions C09_contact_list_general_values.
 Print Assumptions C09_general_values_are_covered.
+Print Assumptions C09_bare_values_are_covered.
+Print Assumptions C09_bare_uri_then_comma.
 Print Assumptions C09_display_name_uri.
 Print Assumptions C09_display_name_uri_then_comma.
 Print Assumptions C09_display_name_uri_and_parameters.
